@@ -30,6 +30,14 @@ type specEnv struct {
 	results     []Val
 	inOld       bool
 	noProgram   bool // axioms: no program variables
+	absIdx      map[string]*absIndex
+}
+
+// absIndex: a bound variable v that is only used to index one sequence B is quantified over the absolute
+// index V = off(B) + v, so that array reads appear as select(arr, V) with a bare index (trigger-friendly).
+type absIndex struct {
+	V       string
+	baseKey string
 }
 
 func (env *specEnv) withState(st *State) *specEnv {
@@ -462,6 +470,25 @@ func (f *Frame) specQuant(n SQuant, env *specEnv) Val {
 		}
 		binders = append(binders, fmt.Sprintf("(%s %s)", vn, e.tt().sortOf(gt)))
 		ne.bound[v.Name] = Val{T: vn, Typ: gt}
+		if v.Type == "int" || v.Type == "mathint" {
+			if base, ok := soleIndexBase(n.Body, v.Name); ok {
+				bv := f.specTerm(base, env)
+				if sv, ok := f.view(bv, env); ok && sv.off != "0" {
+					if ne.absIdx == nil {
+						ne.absIdx = map[string]*absIndex{}
+					} else {
+						m := map[string]*absIndex{}
+						for k, x := range ne.absIdx {
+							m[k] = x
+						}
+						ne.absIdx = m
+					}
+					ne.absIdx[v.Name] = &absIndex{V: vn, baseKey: fmt.Sprintf("%#v", base)}
+					ne.bound[v.Name] = Val{T: fmt.Sprintf("(- %s %s)", vn, sv.off), Typ: mathInt}
+					continue
+				}
+			}
+		}
 		if isInteger(gt) && v.Type != "int" && v.Type != "ref" {
 			if rc := e.tt().rangeConstraint(vn, gt); rc != "" {
 				ranges = append(ranges, rc)
@@ -538,14 +565,25 @@ func (f *Frame) view(v Val, env *specEnv) (*seqView, bool) {
 func (f *Frame) specIndex(n SIndex, env *specEnv) Val {
 	e := f.e
 	x := f.specTerm(n.X, env)
-	i := f.specTerm(n.I, env)
 	if sv, ok := f.view(x, env); ok {
+		// absolute-index form
+		if vname, c, ok := simpleIndex(n.I); ok {
+			if ai := env.absIdx[vname]; ai != nil && ai.baseKey == fmt.Sprintf("%#v", n.X) {
+				idx := ai.V
+				if c != "" {
+					idx = fmt.Sprintf("(+ %s %s)", ai.V, c)
+				}
+				return Val{T: fmt.Sprintf("(select %s %s)", sv.arr, idx), Typ: sv.elem}
+			}
+		}
+		i := f.specTerm(n.I, env)
 		idx := i.T
 		if sv.off != "0" {
 			idx = fmt.Sprintf("(+ %s %s)", sv.off, i.T)
 		}
 		return Val{T: fmt.Sprintf("(select %s %s)", sv.arr, idx), Typ: sv.elem}
 	}
+	i := f.specTerm(n.I, env)
 	if x.Typ == nil {
 		return f.specFail("index of untyped value")
 	}
@@ -851,4 +889,110 @@ func (f *Frame) specUser(sf *SpecFunc, n SCall, env *specEnv) Val {
 		return Val{T: "sp_" + sf.Name, Typ: rt}
 	}
 	return Val{T: fmt.Sprintf("(sp_%s %s)", sf.Name, strings.Join(args, " ")), Typ: rt}
+}
+
+// simpleIndex recognises index expressions of the form v, v+c, v-c (v identifier, c literal).
+func simpleIndex(x SExpr) (string, string, bool) {
+	switch n := x.(type) {
+	case SIdent:
+		return n.Name, "", true
+	case SBin:
+		id, ok1 := n.L.(SIdent)
+		c, ok2 := n.R.(SInt)
+		if ok1 && ok2 && n.Op == "+" {
+			return id.Name, c.Val, true
+		}
+		if ok1 && ok2 && n.Op == "-" {
+			return id.Name, "(- " + c.Val + ")", true
+		}
+	}
+	return "", "", false
+}
+
+// soleIndexBase: if every use of bound variable v as (part of) an index expression in body is a simple index
+// into one and the same base expression, return that base.
+func soleIndexBase(body SExpr, v string) (SExpr, bool) {
+	var base SExpr
+	baseKey := ""
+	ok := true
+	found := false
+	var mentions func(x SExpr) bool
+	mentions = func(x SExpr) bool {
+		m := false
+		walkSpec(x, func(y SExpr) bool {
+			if id, isId := y.(SIdent); isId && id.Name == v {
+				m = true
+			}
+			return true
+		})
+		return m
+	}
+	walkSpec(body, func(x SExpr) bool {
+		switch n := x.(type) {
+		case SQuant:
+			for _, bv := range n.Vars {
+				if bv.Name == v {
+					return false // shadowed
+				}
+			}
+		case SIndex:
+			if mentions(n.I) {
+				name, _, simple := simpleIndex(n.I)
+				if !simple || name != v || mentions(n.X) {
+					ok = false
+					return true
+				}
+				k := fmt.Sprintf("%#v", n.X)
+				if baseKey == "" {
+					baseKey, base = k, n.X
+					found = true
+				} else if baseKey != k {
+					ok = false
+				}
+			}
+		case SSlice:
+			if (n.Lo != nil && mentions(n.Lo)) || (n.Hi != nil && mentions(n.Hi)) {
+				ok = false
+			}
+		}
+		return true
+	})
+	// the base must not be inside old() differently etc.: compare by structure only
+	return base, ok && found
+}
+
+func walkSpec(x SExpr, fn func(SExpr) bool) {
+	if x == nil || !fn(x) {
+		return
+	}
+	switch n := x.(type) {
+	case SUn:
+		walkSpec(n.X, fn)
+	case SBin:
+		walkSpec(n.L, fn)
+		walkSpec(n.R, fn)
+	case SCond:
+		walkSpec(n.C, fn)
+		walkSpec(n.A, fn)
+		walkSpec(n.B, fn)
+	case SQuant:
+		walkSpec(n.Body, fn)
+	case SCall:
+		for _, a := range n.Args {
+			walkSpec(a, fn)
+		}
+	case SSel:
+		walkSpec(n.X, fn)
+	case SIndex:
+		walkSpec(n.X, fn)
+		walkSpec(n.I, fn)
+	case SSlice:
+		walkSpec(n.X, fn)
+		if n.Lo != nil {
+			walkSpec(n.Lo, fn)
+		}
+		if n.Hi != nil {
+			walkSpec(n.Hi, fn)
+		}
+	}
 }
